@@ -133,6 +133,45 @@ type H struct {
 	txCancelled map[uint64]bool
 	txDeps      []txDep
 	lastTxRes   []*abci.ExecTxResult
+	// what governance configured per message type in this sequence (nil = removed): MsgUpdateCustomParams delivered
+	// directly or executed by a passed proposal; only the types touched in the sequence are tracked
+	cfg map[string]*fxgovtypes.CustomParams
+}
+
+// setConfigured records what a successful MsgUpdateCustomParams configured for a message type
+func (h *H) setConfigured(m *fxgovtypes.MsgUpdateCustomParams) {
+	if h.cfg == nil {
+		h.cfg = map[string]*fxgovtypes.CustomParams{}
+	}
+	if m.GetCustomParams() == (fxgovtypes.CustomParams{}) {
+		h.cfg[m.MsgUrl] = nil
+		return
+	}
+	cp := m.CustomParams
+	h.cfg[m.MsgUrl] = &cp
+}
+
+// checkConfigured: the custom parameters configured for a message type ARE what the keeper's look-up for a proposal of
+// that type finds (GetCustomParams is what GetCustomMsgVotingPeriod / GetCustomMsgQuorum / the EGF rule read)
+func (h *H) checkConfigured() {
+	urls := make([]string, 0, len(h.cfg))
+	for u := range h.cfg {
+		urls = append(urls, u)
+	}
+	sort.Strings(urls)
+	for _, u := range urls {
+		want := h.cfg[u]
+		got, found := h.s.App.GovKeeper.GetCustomParams(h.ctx(), u)
+		h.out.Count("configured:checked")
+		switch {
+		case want == nil && found:
+			h.out.Violate(fmt.Sprintf("custom parameters of message type %s were removed by governance but the look-up for that type still finds period %s quorum %s", u, got.VotingPeriod, got.Quorum))
+		case want != nil && !found:
+			h.out.Violate(fmt.Sprintf("custom parameters configured for message type %s (period %s, quorum %s) are not found by the look-up for that type", u, want.VotingPeriod, want.Quorum))
+		case want != nil && (got.VotingPeriod == nil || want.VotingPeriod == nil || *got.VotingPeriod != *want.VotingPeriod || got.Quorum != want.Quorum || got.DepositRatio != want.DepositRatio):
+			h.out.Violate(fmt.Sprintf("custom parameters configured for message type %s are period %s quorum %s ratio %s, the look-up for that type finds period %s quorum %s ratio %s", u, want.VotingPeriod, want.Quorum, want.DepositRatio, got.VotingPeriod, got.Quorum, got.DepositRatio))
+		}
+	}
 }
 
 func cellKey(k int) []byte { return []byte{0xFE, 0xC1, 0x50 + byte(k)} }
@@ -845,6 +884,18 @@ func (h *H) monitor(op string, before, after snap, paidWho int, paid int64, spec
 			}
 		}
 	}
+	// what the proposals that PASSED in this block configured (queue order = execution order), for checkConfigured
+	for _, ts := range specs {
+		ap, ok := after.props[ts.pid]
+		if bp := before.props[ts.pid]; !ok || bp.status != "voting" || ap.status != "passed" {
+			continue
+		}
+		for _, m := range h.props[ts.pid] {
+			if um, isUpd := m.real.(*fxgovtypes.MsgUpdateCustomParams); isUpd {
+				h.setConfigured(um)
+			}
+		}
+	}
 	// (6) all-or-nothing: a failed proposal leaves no cell / custom-parameter write when it is the only one executed
 	nExec, failed := 0, false
 	for pid, p := range after.props {
@@ -932,6 +983,7 @@ func (h *H) emit(op string, before snap, err error, paidWho int, paid int64, spe
 		h.out.Violate("panic in gov message handling: " + err.Error())
 	}
 	h.monitor(op, before, after, paidWho, paid, specs)
+	h.checkConfigured()
 	return after
 }
 
@@ -1002,6 +1054,7 @@ func (h *H) opCustom(url string, remove bool, r *big.Int, period int64, q *big.I
 		h.out.Count("custom:err")
 		return
 	}
+	h.setConfigured(msg)
 	h.emit(op, before, nil, -1, 0, nil)
 }
 
